@@ -187,7 +187,7 @@ def nesting_docs():
 
 def bomb_docs():
     out = []
-    for k, fan in ((10, 2), (14, 2), (19, 2), (20, 2), (21, 2), (7, 8), (4, 40), (3, 120)):
+    for k, fan in ((10, 2), (14, 2), (19, 2), (20, 2), (21, 2), (7, 8), (4, 40), (3, 120), (27, 2), (9, 8), (5, 60)):
         s = '<g id="b0"><rect width="1" height="1"/></g>'
         for i in range(1, k + 1):
             s += '<g id="b%d">%s</g>' % (i, ('<use xlink:href="#b%d"/>' % (i - 1)) * fan)
